@@ -85,12 +85,15 @@ def main():
     claimed = {c["property_id"] for c in checks}
     allp = [json.loads(l)["id"] for l in open("/verif/properties.jsonl")]
     fixes = []
+    opens = []
     for line in open("/verif/known_findings.jsonl"):
         line = line.strip()
         if line and not line.startswith("#"):
             r = json.loads(line)
             if r.get("status") == "fixed" and r["commit"] not in fixes:
                 fixes.append(r["commit"])
+            if r.get("status") == "open":
+                opens.append(f"{r['id']} ({r['property']})")
     m = {
         "version": 1,
         "setup_cmd": "./setup.sh",
@@ -106,7 +109,7 @@ def main():
             "kind_free_text": "hand-written bounded-exhaustive explorers (value/wire edit lattice, fault enumeration, history BFS, schedule DFS) driving the real kio code, judged by independent reference models (KRef, refbatch)",
         }],
         "checks": checks,
-        "notes": "See DESIGN.md. Genuine defects repaired in /repo by 'fix:' commits " + " ".join(fixes) + " (listed as fixed in known_findings.jsonl); open finding D4b (C18) is reported as KNOWN-FINDING.",
+        "notes": "See DESIGN.md. Genuine defects repaired in /repo by 'fix:' commits " + " ".join(fixes) + " (listed as fixed in known_findings.jsonl); open findings reported as KNOWN-FINDING lines: " + ", ".join(opens) + ".",
         "not_applicable": [{"property_id": p, "reason": NA_REASON} for p in allp if p not in claimed],
     }
     json.dump(m, open("/verif/MANIFEST.json", "w"), indent=1)
